@@ -95,7 +95,11 @@ def mos_format(mos, wd, n, text, two=False):
         open(os.path.join(d, "main.asm"), "w").write(MAIN2)
     with open(os.path.join(d, target), "w", encoding="utf-8", newline="") as f:
         f.write(text)
-    p = subprocess.run([mos, "--no-color", "-e", "Short", "format"], cwd=d, capture_output=True, text=True, timeout=60)
+    try:
+        p = subprocess.run([mos, "--no-color", "-e", "Short", "format"], cwd=d, capture_output=True, text=True, timeout=60)
+    except subprocess.TimeoutExpired:
+        shutil.rmtree(d, ignore_errors=True)
+        return False, text
     with open(os.path.join(d, target), encoding="utf-8", newline="") as f:
         out = f.read()
     shutil.rmtree(d, ignore_errors=True)
@@ -142,22 +146,27 @@ def main(tier):
     open(os.path.join(root, "inc.asm"), "w").write("nop\n")
 
     def chunk(k):
-        srv = L.Server(mos, root)
+        # every request has its own timeout; a server that died or hangs is killed and replaced, the missing answer is an
+        # observation (status dead/timeout) for the judge; after a few of them the rest of this share is not driven any more
+        srv = L.Server(mos, root, timeout=10.0)
         srv.initialize()
         path1, path2 = os.path.join(root, "main.asm"), os.path.join(root, "inc.asm")
         srv.did_open(path1, "nop\n")
-        out = []
+        out, unanswered, fresh_server = [], 0, True
         for i in range(k, nbuf, 6):
+            if unanswered >= 4:
+                break
             text = bufs[i]
             two = i % 4 == 3                              # every fourth buffer is formatted as the imported file of a two-file project
             path = path2 if two else path1
             fmt_ok, formatted = mos_format(mos, wd, i, text, two)
             for pas, buf in enumerate([text, formatted] if fmt_ok else [text]):       # second pass: already formatted text
-                if not srv.alive():
+                if not fresh_server:
                     srv.kill()
-                    srv = L.Server(mos, root)
+                    srv = L.Server(mos, root, timeout=10.0)
                     srv.initialize()
                     srv.did_open(path1, "nop\n")
+                    fresh_server = True
                 if two:
                     srv.did_change(path1, MAIN2)
                     srv.did_open(path2, buf)
@@ -166,6 +175,9 @@ def main(tier):
                 ok2, formatted2 = (fmt_ok, formatted) if pas == 0 else mos_format(mos, wd, i, buf, two)
                 for kind in ("formatting", "onType"):
                     r = srv.request(*L.params_for(kind, path, 0, 0))
+                    if r["status"] not in ("ok", "error"):
+                        unanswered += 1
+                        fresh_server = False                 # dead or hung: replace it before the next buffer
                     eds = r["result"] if r["status"] == "ok" else None
                     out.append({"id": i * 10 + pas * 2 + (kind == "onType"), "kind": kind + ("/imported file" if two else ""), "status": r["status"], "answered": eds is not None, "doc": units(buf),
                                 "edits": [{"sl": e["range"]["start"]["line"], "sc": e["range"]["start"]["character"], "el": e["range"]["end"]["line"],
@@ -185,13 +197,16 @@ def main(tier):
             if t.isascii() and is_rotation(t[a:b], e["newText"]):
                 nmerge += 1
                 break
-    if nmerge == 0:
-        raise V.ToolError("vacuity: no reply contains a merged (delete X, keep E, insert X) edit followed by a later edit")
+    # vacuity is a statement about the generated INPUTS: buffers of the move family that `mos format` accepts and changes
+    # (their reference diff has the delete X / keep E / insert X shape followed by more changes) must have been driven
+    mvset = set(mv)
+    nmove = sum(1 for x in recs if x["fmtOk"] and x["_text"] in mvset and x["_fmt"] != x["_text"])
     extra = {x["id"]: {"buffer": x.pop("_text"), "mos_format": x.pop("_fmt"), "edits": x.pop("_raw")} for x in recs}
     njudged = sum(1 for x in recs if x["answered"] and x["fmtOk"])
     V.log("[C17] %d buffers, %d requests, %d answered with edits on error-free buffers" % (nbuf, len(recs), njudged))
-    if njudged < len(recs) // 4:
-        raise V.ToolError("too few buffers are error-free (%d of %d): generator broken" % (njudged, len(recs)))
+    nfmt = sum(1 for x in recs if x["fmtOk"])
+    if nfmt < len(recs) // 4:
+        raise V.ToolError("too few buffers are error-free for `mos format` (%d of %d): generator broken" % (nfmt, len(recs)))
     jm, jc = os.path.join(SPEC, "EditsTrace.tla"), os.path.join(SPEC, "EditsTrace.cfg")
     verdicts, st = V.judge(jm, recs, cfg=jc, tag="C17-judge", batch=500, timeout=2400)
     rep.add_stats(st)
@@ -220,6 +235,8 @@ def main(tier):
     rep.cov["evaluations"] = len(recs)
     rep.cov["distinct_nontrivial"] = len({json.dumps(x["doc"]) for x in recs if x["answered"] and x["fmtOk"] and x["edits"]})
     rep.cov["merge_rule_then_later_edit"] = nmerge
+    rep.cov["move_family_buffers_driven"] = nmove
+    rep.cov["unanswered_requests"] = sum(1 for x in recs if x["status"] not in ("ok", "error"))
     rep.cov["rule"] = ("seeded buffers of 1-8 statements with random spacing, line/block comments, blank lines, CRLF (25 %), non-ASCII text in comments and strings (every second buffer), "
                        "the enumerated family of buffers in which the formatter moves text across an unchanged piece (label line joined with the next instruction, two statements on one line) followed by more edits, "
                        "and the already formatted text of each; textDocument/formatting and onTypeFormatting on the real server vs `mos format` on the same file; distinct = distinct buffers with a non-empty edit list")
@@ -228,6 +245,11 @@ def main(tier):
     rep.assumptions += ["line terminators: the server's formatter works on \\n, `mos format` writes the platform line ending (\\n here)"]
     for v in verdicts:
         rep.verdict(v, {"case": extra.get(v["id"]), "judge": "spec/Edits/EditsTrace.tla", "why": v.get("why")})
+    if not rep.violations:                       # a vacuity guard never outranks a verdict
+        if nmove == 0:
+            raise V.ToolError("vacuity: no buffer of the move family (delete X, keep E, insert X, then more changes) was driven")
+        if njudged < len(recs) // 4:
+            raise V.ToolError("vacuity: only %d of %d requests were answered with edits on error-free buffers" % (njudged, len(recs)))
     return rep.finish()
 
 
